@@ -392,6 +392,20 @@ def l3_equilibrium(chk, ctx, rng, n):
         if not ok:
             chk.fail(key, 'phi_1D(nu=c*nu, theta0/c, gamma/c) differs from phi_1D(nu, theta0, gamma) by %.3g (entry-wise relative; inf = non-finite entries), '
                      'c=%g nu=%g gamma=%g (gamma*nu*4beta/(beta+1)^2 = %g) h=%g beta=%g' % (err, c, nu, gamma, q['G'], h, beta), inp)
+        # "output scales with theta0": the equilibrium density is linear in theta0 — also when the same (grid, gamma, nu, h) was already
+        # evaluated with another theta0 earlier in this process (a memo of the quadratures must not capture theta0)
+        s_ = float(rng.choice([0.25, 3.0, 1e-4, 40.0]))
+        try:
+            a2 = P.phi_1D(xx, nu=nu, theta0=s_ * th, gamma=gamma, h=h, beta=beta)
+            a3 = P.phi_1D(xx, nu=nu, theta0=th, gamma=gamma, h=h, beta=beta)
+        except Exception as e:
+            chk.fail(key + ':theta0:raises:' + type(e).__name__, 'phi_1D raises %r' % (e,), inp); continue
+        ok2, err2 = eq_same(a2, s_ * a)
+        ok3, err3 = eq_same(a3, a)
+        if not ok2:
+            chk.fail(key + ':theta0-linear', 'phi_1D(theta0=%g*theta0) differs from %g*phi_1D(theta0) by %.3g (entry-wise relative), nu=%g gamma=%g h=%g beta=%g' % (s_, s_, err2, nu, gamma, h, beta), dict(inp, factor=s_))
+        if not ok3:
+            chk.fail(key + ':theta0-history', 'phi_1D with the same arguments differs after a call with another theta0 by %.3g (entry-wise relative)' % err3, dict(inp, factor=s_))
 
 def l3_equilibrium_X(chk, ctx, rng, n):
     """the X-chromosome pair phi_1D_X / one_pop_X takes the same parameters relative to the same reference size"""
